@@ -16,6 +16,132 @@ struct GT { unsigned long n, buckets, idx; };
 #define B_MINB 1UL   /* abstract minimum bucket count (16 in the real table): keeps the bounded iteration short */
 #define GTP(t) ((struct GT *)(t))
 
+/* ghosts of the chain contracts (declared for every job: the loop contracts that mention them are part of the lowered functions) */
+size_t g_len, g_first, g_cur, g_nn; _Bool g_placeholder; int g_mode;   /* mode 1: begin, 2: ++, 3: size */
+Node_t *g_nodes; unsigned long *g_pre, *g_bk; Set_t *g_set;
+#define NODE_IN(p) (__CPROVER_same_object(p, g_nodes) && __CPROVER_POINTER_OFFSET(p) % sizeof(Node_t) == 0 && __CPROVER_POINTER_OFFSET(p) / sizeof(Node_t) >= 1 && __CPROVER_POINTER_OFFSET(p) / sizeof(Node_t) < g_len)
+#define IDX(p) (__CPROVER_POINTER_OFFSET(p) / sizeof(Node_t))
+#ifdef VF_CHAIN
+/* ================= UNBOUNDED: chain-level contracts (jobs C18.chain.*) =================
+ * The chain has g_len >= 1 tables (any length < 2^20): table 0 is the head embedded in the set, table k >= 1 lives in g_nodes[k]
+ * (typed array), and the `next` link of table k is &g_nodes[k+1] (null for the last) -- the acquire load of a link is a stub that
+ * computes exactly that from the address it is given, so the real code walks a list of arbitrary length.  Table k holds
+ * n_k = g_pre[k+1] - g_pre[k] elements at abstract positions 0..n_k-1 and has g_bk[k] >= n_k buckets; the facts about a table are
+ * assumed the first time a stub touches it (wf(k): a quantifier-free way to state "for every table of the chain").
+ *   begin()       returns the first element in chain order (table g_first = the first non-empty table, position 0) with _next
+ *                 behind that table, or end() when every table is empty;
+ *   operator++    from (table c, position p): (c, p+1) if that exists, else position 0 of the next non-empty table g_nn, else end();
+ *                 together: iteration is the lexicographic successor walk over {(k, p) : p < n_k} -- every element once, in order;
+ *   total_size /  in a quiescent chain (every table before the last is full, except a default-constructed placeholder head that
+ *   size          is empty) the result is g_pre[g_len] - g_pre[0] = the number of elements held. */
+static void vf_havoc_ghosts(void) {
+  g_len = nondet_u64(); __CPROVER_assume(g_len >= 1 && g_len < (1UL << 20));
+  g_nodes = malloc((g_len + 1) * sizeof(Node_t)); __CPROVER_assume(g_nodes != 0);
+  g_pre = malloc((g_len + 2) * sizeof(unsigned long)); __CPROVER_assume(g_pre != 0);
+  g_bk = malloc((g_len + 1) * sizeof(unsigned long)); __CPROVER_assume(g_bk != 0);
+  g_set = malloc(sizeof(Set_t)); __CPROVER_assume(g_set != 0);
+  g_first = nondet_u64(); g_cur = nondet_u64(); g_nn = nondet_u64(); g_placeholder = nondet_bool(); g_mode = (int)nondet_uint();
+}
+#define N_OF(k) (g_pre[(k) + 1] - g_pre[k])
+static void wf(size_t k) {
+  __CPROVER_assume(g_pre[k] <= g_pre[k + 1] && g_pre[k + 1] < (1UL << 50) && N_OF(k) <= g_bk[k] && g_bk[k] >= 1 && g_bk[k] < (1UL << 40));
+  if (g_mode == 3) {
+    if (k == 0 && g_placeholder) __CPROVER_assume(N_OF(k) == 0);
+    else if (k + 1 < g_len) __CPROVER_assume(N_OF(k) == g_bk[k]);
+  }
+  if (g_mode == 1) { if (k < g_first) __CPROVER_assume(N_OF(k) == 0); if (k == g_first) __CPROVER_assume(N_OF(k) > 0); }
+  if (g_mode == 2) { if (k > g_cur && k < g_nn) __CPROVER_assume(N_OF(k) == 0); if (k == g_nn) __CPROVER_assume(N_OF(k) > 0); }
+}
+static size_t k_of_tab(struct Tab *t) {
+  if (__CPROVER_same_object(t, g_nodes)) {
+    size_t off = __CPROVER_POINTER_OFFSET(t);
+    __CPROVER_assert(off % sizeof(Node_t) == 0 && off / sizeof(Node_t) >= 1 && off / sizeof(Node_t) < g_len, "K4 C18.chain only tables of the chain are touched");
+    return off / sizeof(Node_t);
+  }
+  __CPROVER_assert(t == &g_set->_head.table, "K4 C18.chain only tables of the chain are touched");
+  return 0;
+}
+#define NODE(k) ((k) == 0 ? &g_set->_head : ((k) < g_len ? &g_nodes[k] : (Node_t *)0))
+#define TABLE(k) ((k) == 0 ? &g_set->_head.table : &g_nodes[k].table)
+void *vf_atomic_load_ptr(void **p, int order, int site) {
+  __CPROVER_assert(order == 2 || order == 4 || order == 5, "K6 C18 chain link loads are acquire");
+  size_t k;
+  if (__CPROVER_same_object(p, g_nodes)) {
+    size_t off = __CPROVER_POINTER_OFFSET(p);
+    __CPROVER_assert(off % sizeof(Node_t) == __builtin_offsetof(Node_t, next) && off / sizeof(Node_t) >= 1 && off / sizeof(Node_t) < g_len, "K4 C18.chain only links of the chain are followed");
+    k = off / sizeof(Node_t);
+  } else { __CPROVER_assert(p == (void **)&g_set->_head.next, "K4 C18.chain only links of the chain are followed"); k = 0; }
+  return (k + 1 < g_len) ? (void *)&g_nodes[k + 1] : (void *)0;
+}
+TIt_t Tab_begin__void(struct Tab *t) { size_t k = k_of_tab(t); wf(k); TIt_t it; it._table = t; it._index = N_OF(k) > 0 ? 0 : g_bk[k]; it._iter._mask = 0; return it; }
+TIt_t Tab_end__void(struct Tab *t) { size_t k = k_of_tab(t); wf(k); TIt_t it; it._table = t; it._index = g_bk[k]; it._iter._mask = 0; return it; }
+_Bool Tab_Iterator_L_0_R_op_ne(TIt_t *a, TIt_t b) { return a->_index != b._index; }
+_Bool Tab_Iterator_L_0_R_op_bool(TIt_t *a) { if (a->_table == 0) return 0; size_t k = k_of_tab(a->_table); wf(k); return a->_index < g_bk[k]; }
+TIt_t *Tab_Iterator_L_0_R_op_inc(TIt_t *a) {
+  __CPROVER_assert(a->_table != 0, "K4 C18 table iterator advanced only while it designates an element");
+  size_t k = k_of_tab(a->_table); wf(k);
+  __CPROVER_assert(a->_index < N_OF(k), "K4 C18 table iterator advanced only while it designates an element");
+  a->_index++;
+  if (a->_index >= N_OF(k)) a->_index = g_bk[k];
+  return a;
+}
+TIt_t *Tab_Iterator_L_0_R_op_assign__Iterator_L_0_RR(TIt_t *a, TIt_t *b) { *a = *b; return a; }
+TIt_t *Tab_Iterator_L_0_R_op_assign__Iterator_L_0_RR_574265(TIt_t *a, TIt_t *b) { *a = *b; return a; }
+size_t Tab_bucket_count(struct Tab *t) { size_t k = k_of_tab(t); wf(k); return g_bk[k]; }
+size_t Tab_size(struct Tab *t) { size_t k = k_of_tab(t); wf(k); return N_OF(k); }
+
+#define IS_END(it) ((it)._next == 0 && ((it)._iter._table == 0))
+SIt_t Set_begin__void(Set_t *s)
+__CPROVER_requires(__CPROVER_pointer_equals(s, g_set) && g_mode == 1 && g_first <= g_len)
+__CPROVER_assigns()
+__CPROVER_ensures(g_first == g_len ==> IS_END(__CPROVER_return_value))
+__CPROVER_ensures(g_first < g_len ==> (__CPROVER_return_value._iter._table == TABLE(g_first) && __CPROVER_return_value._iter._index == 0
+                  && __CPROVER_return_value._next == NODE(g_first + 1)))
+;
+//@loop Set_begin__void 1
+//@  VF_REBASE(@l1:node@, g_nodes)
+//@  __CPROVER_assigns(@l1:node@, @l2:iter@)
+//@  __CPROVER_loop_invariant(g_first >= 1 && (@l1:node@ == 0 ? g_first == g_len : (NODE_IN(@l1:node@) && IDX(@l1:node@) <= g_first)))
+//@  __CPROVER_decreases(@l1:node@ == 0 ? 0 : g_len - IDX(@l1:node@))
+//@end
+SIt_t *Set_Iterator_L_0_R_op_inc(SIt_t *it)
+__CPROVER_requires(__CPROVER_is_fresh(it, sizeof(*it)) && g_mode == 2 && g_cur < g_len && g_nn > g_cur && g_nn <= g_len)
+__CPROVER_requires(__CPROVER_pointer_equals(it->_iter._table, TABLE(g_cur)) && __CPROVER_pointer_equals(it->_next, NODE(g_cur + 1)))
+__CPROVER_requires(g_pre[g_cur] <= g_pre[g_cur + 1] && it->_iter._index < N_OF(g_cur))
+__CPROVER_assigns(it->_next, it->_iter)
+__CPROVER_ensures(__CPROVER_return_value == it)
+__CPROVER_ensures(__CPROVER_old(it->_iter._index) + 1 < N_OF(g_cur) ==> (it->_iter._table == TABLE(g_cur) && it->_iter._index == __CPROVER_old(it->_iter._index) + 1 && it->_next == NODE(g_cur + 1)))
+__CPROVER_ensures((__CPROVER_old(it->_iter._index) + 1 >= N_OF(g_cur) && g_nn < g_len) ==> (it->_iter._table == TABLE(g_nn) && it->_iter._index == 0 && it->_next == NODE(g_nn + 1)))
+__CPROVER_ensures((__CPROVER_old(it->_iter._index) + 1 >= N_OF(g_cur) && g_nn == g_len) ==> IS_END(*it))
+;
+//@loop Set_Iterator_L_0_R_op_inc 1
+//@  VF_REBASE(@l1:node@, g_nodes)
+//@  __CPROVER_assigns(@l1:node@)
+//@  __CPROVER_loop_invariant(@l1:node@ == 0 ? g_nn == g_len : (NODE_IN(@l1:node@) && IDX(@l1:node@) > g_cur && IDX(@l1:node@) <= g_nn))
+//@  __CPROVER_decreases(@l1:node@ == 0 ? 0 : g_len - IDX(@l1:node@))
+//@end
+#ifdef VF_ENFORCE_Set_total_size
+#define TS_PEQ(a, b) __CPROVER_pointer_equals(a, b)
+#else
+#define TS_PEQ(a, b) ((a) == (b))
+#endif
+size_t Set_total_size(Set_t *s, Node_t *node)
+__CPROVER_requires(TS_PEQ(s, g_set) && g_mode == 3 && g_len >= 2 && TS_PEQ(node, &g_nodes[1]) && g_pre[0] == 0)
+__CPROVER_assigns()
+__CPROVER_ensures(__CPROVER_return_value == g_pre[g_len])
+;
+//@loop Set_total_size 1
+//@  VF_REBASE(@p1:node@, g_nodes)
+//@  __CPROVER_assigns(@p1:node@, @l1:sum@)
+//@  __CPROVER_loop_invariant(NODE_IN(@p1:node@) && @l1:sum@ == g_pre[IDX(@p1:node@)])
+//@  __CPROVER_decreases(g_len - IDX(@p1:node@))
+//@end
+size_t Set_size(Set_t *s)
+__CPROVER_requires(__CPROVER_pointer_equals(s, g_set) && g_mode == 3 && g_pre[0] == 0)
+__CPROVER_assigns()
+__CPROVER_ensures(__CPROVER_return_value == g_pre[g_len])
+;
+#else
 void *vf_atomic_load_ptr(void **p, int order, int site) {
   __CPROVER_assert(order == 2 || order == 4 || order == 5 || order == 0, "K6 C18 chain link loads are acquire (or relaxed under external synchronisation)");
   return *p;
@@ -110,4 +236,5 @@ void h_copy_bounded(void) {
   __CPROVER_assert(GTP(&copy._head.table)->n == b_total && copy._head.next == 0, "K1 C18.copy the copy holds exactly as many elements as the source");
   __CPROVER_assert(0, "VF_VACUITY_TWIN lemma reachable (must fail)");
 }
+#endif
 #endif
